@@ -1551,12 +1551,18 @@ fn check_concurrent(rep: &mut Report, old: &[Record], a: &[Record], b: &[Record]
         }
         _ => {
             rep.count(if fits { "concurrent:both_fit_the_buffer:TORN" } else { "concurrent:above_8192:torn" });
-            let what = if got.is_none() {
-                format!("two save_stats sessions at the same time ({sa} and {sb} bytes, {} and {} write(2) calls): the write(2) calls interleave inside a line and Stats::read rejects the whole log ({} older records lost too)", ca.len(), cb.len(), old.len())
-            } else {
-                format!("two save_stats sessions at the same time ({sa} and {sb} bytes, {} and {} write(2) calls): the write(2) calls interleave and the log reads back as neither old+A+B nor old+B+A", ca.len(), cb.len())
-            };
-            rep.fail(if fits { "concurrent_small_torn" } else { "concurrent_torn_line" }, what, inp);
+            // BEYOND THE PROPERTY (lead decision): C19 speaks of a second batch AFTER a first; two writers at the same
+            // time are outside its quantifier.  Observation only: counted here and in evidence.extra, never a failure.
+            // (a tear with both batches inside the buffer would contradict C19_concurrent_small_batches: it shows as a
+            // B / C correspondence disagreement as well)
+            let _ = &inp;
+            rep.monitor(if fits { "concurrent_observed: sessions that both fit 8192 bytes tore a line (model says impossible)" } else { "concurrent_observed: overlapping sessions above 8192 bytes left a log Stats::read does not read back as one batch after the other" }, 1);
+            let e = rep.extra.entry("concurrent_appends_beyond_the_property".into()).or_insert_with(|| json!({"note": "two save_stats sessions issued at the same time on two O_APPEND descriptors (the write(2) calls the real Stats::write + std BufWriter make, in a scheduled order); outside C19's quantifier (a second batch AFTER a first): observation for maintainers, see fixes/FC19a-save-stats-single-write.diff", "torn_logs_above_8192_bytes": 0, "torn_logs_within_8192_bytes": 0, "rejected_whole_log": 0}));
+            let key = if fits { "torn_logs_within_8192_bytes" } else { "torn_logs_above_8192_bytes" };
+            e[key] = json!(e[key].as_u64().unwrap_or(0) + 1);
+            if got.is_none() {
+                e["rejected_whole_log"] = json!(e["rejected_whole_log"].as_u64().unwrap_or(0) + 1);
+            }
         }
     }
 }
